@@ -271,6 +271,8 @@ def _check_kinds(kinds):
 
 
 def _check_bind_exact(n):
+    """per-task binding (also when tasks SHARE one circuit object and differ only in their maps) and exact expectation values
+    (for every kind of task: positive shots, zero shots, None, constant operators - the exact value never depends on the shot count)"""
     import numpy as np
     import sympy
     from orquestra.quantum.api.estimation import EstimationTask
@@ -279,30 +281,38 @@ def _check_bind_exact(n):
     from orquestra.quantum.operators import PauliSum, PauliTerm, get_sparse_operator
     from orquestra.quantum.runners.symbolic_simulator import SymbolicSimulator
     th = sympy.Symbol("theta")
-    tasks = [EstimationTask(PauliSum([PauliTerm("Z0", 1.0 + i), PauliTerm("X0*Z1", 0.5)]), Circuit([RX(th * (i + 1))(0), X(1)]), 10 + i) for i in range(n)]
+    shared = Circuit([RX(th)(0), X(1)])
+    shots = [10, 0, None, 7, 0]
+    tasks = []
+    for i in range(n):
+        op = PauliSum([PauliTerm("Z0", 1.0 + i), PauliTerm("X0*Z1", 0.5)]) if i % 4 != 3 else PauliSum([PauliTerm("I0", 2.0 + i)])
+        circ = shared if i % 2 == 0 else Circuit([RX(th * (i + 1))(0), X(1)])
+        tasks.append(EstimationTask(op, circ, shots[i % len(shots)]))
     maps = [{th: 0.1 * (i + 1)} for i in range(n)]
     bound = evaluate_estimation_circuits(tasks, maps)
     if len(bound) != n:
         return False, "wrong number of bound tasks"
     for i, (t, b) in enumerate(zip(tasks, bound)):
         if b.operator is not t.operator or b.number_of_shots != t.number_of_shots or b.circuit != t.circuit.bind(maps[i]) or b.circuit.free_symbols:
-            return False, f"task {i} not bound with its own map"
+            return False, f"task {i} is not bound with its own map (circuit {b.circuit}, expected {t.circuit.bind(maps[i])})"
         if t.circuit.free_symbols != [th]:
             return False, "input task modified"
     vals = calculate_exact_expectation_values(SymbolicSimulator(), bound)
+    if len(vals) != n:
+        return False, "wrong number of exact values"
     for i, (b, v) in enumerate(zip(bound, vals)):
         psi = np.array(b.circuit.to_unitary().tolist(), dtype=complex)[:, 0]
         mat = get_sparse_operator(b.operator, 2).toarray()
         e = np.vdot(psi, mat @ psi).real
         if len(v.values) != 1 or abs(v.values[0] - e) > 1e-9:
-            return False, f"exact value {v.values} != quadratic form {e} for task {i}"
+            return False, f"exact value {v.values} != quadratic form {e} for task {i} (shots={b.number_of_shots}, operator {b.operator})"
     return True, "ok"
 
 
 def build(tier, seed):
     obs = []
     fb_kinds = vprop.enum_ob("x", [], _cases_kinds("quick"), _check_kinds, "").run
-    fb_bind = vprop.enum_ob("x", [], lambda: range(0, 4), _check_bind_exact, "").run
+    fb_bind = vprop.enum_ob("x", [], lambda: range(0, 7), _check_bind_exact, "").run
     obs.append(vprop.fn_ob("C15", C_SPLIT, {}, desc="split: index lists increasing, kind-correct, covering every position; tasks_*[p] = tasks[indices_*[p]] (loop invariant, all lengths)",
                            timeout_ms=30000, fallback=fb_kinds))
     obs.append(vprop.fn_ob("C15", C_NONMEAS, {}, extra_stubs=lambda: {"ExpectationValues": _stub_ev_value, "np": _NP1}, timeout_ms=30000, fallback=fb_kinds,
@@ -320,6 +330,6 @@ def build(tier, seed):
     obs.append(vprop.enum_ob("C15.kinds.enum", [C_AVG.key, C_SPLIT.key, C_NONMEAS.key], _cases_kinds(tier), _check_kinds,
                              "bounded: every ordering of measurable / constant (unsimplified) / zero-shot / None-shot tasks up to the length bound on basis states: "
                              "one result per task at its position, coefficients included, constants exact, zero-shot gives 0, tasks unmodified"))
-    obs.append(vprop.enum_ob("C15.bind_exact.enum", [C_BIND.key, C_EXACT.key], lambda: range(0, 4), _check_bind_exact,
-                             "bounded: per-task binding and exact expectation equals the quadratic form"))
+    obs.append(vprop.enum_ob("C15.bind_exact.enum", [C_BIND.key, C_EXACT.key], lambda: range(0, 7), _check_bind_exact,
+                             "bounded: per-task binding (tasks sharing one circuit object, different maps) and exact expectation = quadratic form for positive / zero / None shots and constants"))
     return obs
